@@ -9,6 +9,7 @@ import (
 	"path/filepath"
 	"sort"
 	"strings"
+	"sync/atomic"
 	"time"
 
 	git "github.com/go-git/go-git/v6"
@@ -18,7 +19,7 @@ import (
 )
 
 func init() {
-	fw.Register(&fw.Check{ID: "C22", Level: "model_checking", Run: runC22, QuickBudget: 100, ThoroughBudget: 900})
+	fw.Register(&fw.Check{ID: "C22", Level: "model_checking", Run: runC22, QuickBudget: 240, ThoroughBudget: 900})
 }
 
 type c22Feature struct {
@@ -68,10 +69,78 @@ func c22Features() []c22Feature {
 			g.MustRun("add", "det")
 			g.MustRun("commit", "-q", "-m", "detached")
 		}},
-		{"annotated-tags", func(g *fw.Git, dir string, ids []string) {
+		{"annotated-tags(commit,tree,tag-of-tag)", func(g *fw.Git, dir string, ids []string) {
 			g.MustRun("tag", "-a", "-m", "tag of a commit", "vc", ids[0])
+			// a tree and, through it, a blob that nothing else references
+			blob := g.MustRunIn([]byte("blob only reachable from a tagged tree\n"), "hash-object", "-w", "--stdin").S()
+			tree := g.MustRunIn([]byte("100644 blob "+blob+"\tonly-in-tagged-tree\n"), "mktree").S()
+			g.MustRun("tag", "-a", "-m", "tag of a tree", "vt", tree)
+			// a commit only reachable through a tag of a tag
+			cm := g.MustRun("commit-tree", "-m", "only reachable through a tag of a tag", tree).S()
+			g.MustRun("tag", "-a", "-m", "inner", "vi", cm)
+			g.MustRun("tag", "-a", "-m", "tag of a tag", "vo", "vi")
+			g.MustRun("update-ref", "-d", "refs/tags/vi")
+		}},
+		{"annotated-tag-of-blob", func(g *fw.Git, dir string, ids []string) {
+			// go-git's object walker refuses blobs it reaches outside a tree's plain
+			// entries ("unknown object ... blob"): Prune/RepackObjects return an error and
+			// delete nothing in these states (counted as refused_operations)
 			blob := g.MustRunIn([]byte("blob only reachable from a tag\n"), "hash-object", "-w", "--stdin").S()
 			g.MustRun("tag", "-a", "-m", "tag of a blob", "vb", blob)
+		}},
+		{"branch-only-in-packed-refs", func(g *fw.Git, dir string, ids []string) {
+			blob := g.MustRunIn([]byte("blob of a commit that only a packed ref names\n"), "hash-object", "-w", "--stdin").S()
+			tree := g.MustRunIn([]byte("100755 blob "+blob+"\tpk\n"), "mktree").S()
+			cm := g.MustRun("commit-tree", "-m", "packed-ref only", tree).S()
+			g.MustRun("update-ref", "refs/remotes/origin/pk", cm)
+			g.MustRun("pack-refs", "--all", "--prune")
+		}},
+		{"shallow-root(ancestors pruned by git)", func(g *fw.Git, dir string, ids []string) {
+			tip := g.MustRun("rev-parse", "refs/heads/main").S()
+			if err := os.WriteFile(filepath.Join(dir, ".git", "shallow"), []byte(tip+"\n"), 0o644); err != nil {
+				fw.Abort("shallow: %v", err)
+			}
+			g.MustRun("reflog", "expire", "--expire=now", "--all")
+			g.MustRun("prune", "--expire=now")
+		}},
+		{"promisor-marked-pack(all objects present)", func(g *fw.Git, dir string, ids []string) {
+			g.MustRun("repack", "-a", "-d", "-q")
+			packs, _ := filepath.Glob(filepath.Join(dir, ".git", "objects", "pack", "pack-*.pack"))
+			if len(packs) == 0 {
+				fw.Abort("no pack to mark")
+			}
+			for _, p := range packs {
+				if err := os.WriteFile(strings.TrimSuffix(p, ".pack")+".promisor", nil, 0o644); err != nil {
+					fw.Abort("promisor: %v", err)
+				}
+			}
+			// (no promisor remote is configured for git: go-git keys on the marker file alone,
+			// and real git then stays a strict oracle that never tries a lazy fetch)
+		}},
+		{"unmerged-index(stages 1-3 only in the index)", func(g *fw.Git, dir string, ids []string) {
+			var in strings.Builder
+			for st := 1; st <= 3; st++ {
+				h := g.MustRunIn([]byte(fmt.Sprintf("conflict side %d, never committed\n", st)), "hash-object", "-w", "--stdin").S()
+				fmt.Fprintf(&in, "100644 %s %d\tconflicted\n", h, st)
+			}
+			g.MustRunIn([]byte(in.String()), "update-index", "--index-info")
+		}},
+		{"history-in-two-packs", func(g *fw.Git, dir string, ids []string) {
+			// first pack: the tip commit with its tree and blobs (present in every state, also a shallow one)
+			objs := g.MustRun("rev-list", "--objects", "--no-walk", "refs/heads/main").Out
+			g.MustRunIn(objs, "pack-objects", "-q", filepath.Join(dir, ".git", "objects", "pack", "pack"))
+			g.MustRun("prune-packed")
+			g.MustRun("repack", "-d", "-q") // the rest of the loose objects: a second pack
+		}},
+		{"linked-worktree(detached HEAD on own commit + staged blob)", func(g *fw.Git, dir string, ids []string) {
+			wt := filepath.Join(dir, ".linked")
+			g.MustRun("worktree", "add", "-q", "--detach", wt, "refs/heads/main")
+			gw := g.In(wt)
+			write(wt, "w", "committed only in the linked worktree\n")
+			gw.MustRun("add", "w")
+			gw.MustRun("commit", "-q", "-m", "linked worktree commit")
+			write(wt, "s", "staged only in the linked worktree\n")
+			gw.MustRun("add", "s")
 		}},
 		{"everything-packed-plus-loose-duplicate", func(g *fw.Git, dir string, ids []string) {
 			g.MustRun("repack", "-a", "-d", "-q")
@@ -117,12 +186,50 @@ func c22Ops() []c22Op {
 		{"RepackObjects;Prune", seq(repack(false), prune(time.Time{}))},
 		{"Prune;RepackObjects", seq(prune(time.Time{}), repack(false))},
 		{"RepackObjects;RepackObjects", seq(repack(false), repack(true))},
+		{"RepackObjects;RepackObjects(same settings)", seq(repack(false), repack(false))},
+		{"RepackObjects(delete packs older than tomorrow);Prune", seq(func(r *git.Repository) error {
+			return r.RepackObjects(&git.RepackConfig{OnlyDeletePacksOlderThan: future})
+		}, prune(time.Time{}))},
 	}
 }
 
 func copyDir(src, dst string) {
 	if out, err := exec.Command("cp", "-a", src, dst).CombinedOutput(); err != nil {
 		fw.Abort("cp: %v %s", err, out)
+	}
+}
+
+// c22CopyTree copies a small repository directory in-process (a process spawn
+// per case is the dominant cost of this check).
+func c22CopyTree(src, dst string) {
+	err := filepath.Walk(src, func(p string, fi os.FileInfo, err error) error {
+		if err != nil {
+			return err
+		}
+		rel, _ := filepath.Rel(src, p)
+		q := filepath.Join(dst, rel)
+		switch {
+		case fi.IsDir():
+			return os.MkdirAll(q, 0o755)
+		case fi.Mode()&os.ModeSymlink != 0:
+			t, err := os.Readlink(p)
+			if err != nil {
+				return err
+			}
+			return os.Symlink(t, q)
+		default:
+			b, err := os.ReadFile(p)
+			if err != nil {
+				return err
+			}
+			if err := os.WriteFile(q, b, fi.Mode().Perm()|0o200); err != nil {
+				return err
+			}
+			return os.Chtimes(q, fi.ModTime(), fi.ModTime())
+		}
+	})
+	if err != nil {
+		fw.Abort("copy %s: %v", src, err)
 	}
 }
 
@@ -140,9 +247,14 @@ func runC22(c *fw.Ctx) {
 	c.Bound("features", fn)
 	c.Bound("max_features_combined", maxF)
 	c.Bound("operations", on)
-	c.SetRule("repository states = 3 git-built histories (linear, branch+merge, two roots) x every subset of <= max_features_combined of 9 features (staged new blob, staged edit, staged executable and symlink (loose / packed), staged blob already packed, detached HEAD on an unreferenced commit, annotated tags of commit and blob, everything packed + loose duplicate, unreachable loose object) x 7 GC operation sequences (Prune with/without age limit, RepackObjects ofs/ref, compositions); model = set of objects git reports reachable from all refs, HEAD and the index (rev-list --objects --all HEAD + ls-files -s) BEFORE the operation, with their bytes; after the operation every such object must be readable with identical type and bytes through a fresh go-git storage and through real git cat-file, and git fsck must find no missing object; distinct = (history, feature set, operation, object-set digest)")
+	c.SetRule("repository states = git-built histories (quick: branch+merge with a side branch; thorough also two roots and linear) x every subset of <= max_features_combined of 16 features (staged new blob, staged edit, staged executable and symlink (loose / packed), staged blob already packed, detached HEAD on an unreferenced commit, annotated tags of commit/tree/tag-of-tag, annotated tag of a blob, a ref that exists only in packed-refs, a shallow root whose ancestors git pruned, a promisor-marked pack, an unmerged index whose stage 1-3 blobs exist nowhere else, history spread over two packs plus loose objects, a linked worktree with a detached HEAD on its own commit and its own staged blob, everything packed + loose duplicate, unreachable loose object) x 9 GC operation sequences (Prune with/without age limit, RepackObjects ofs/ref, with a pack-age limit, compositions including the same repack twice); model = set of objects git reports reachable from all refs, HEAD (of every worktree) and the index (of every worktree) (rev-list --objects --all --indexed-objects HEAD + ls-files -s) BEFORE the operation, with their bytes; after the operation every such object must be readable with identical type and bytes through the same and a fresh go-git storage and through real git cat-file, and git fsck must find no missing object; an operation that returns an error must have lost nothing (counted in refused_operations); distinct = (history, feature set, operation, object-set digest, refused or not)")
 	c.Assume("git 2.39.5 defines reachability; reflog-only reachability is not part of the statement")
-	dags := []fw.DAG{{Parents: [][]int{{}, {0}}}, {Parents: [][]int{{}, {0}, {0}, {1, 2}}}, {Parents: [][]int{{}, {}, {0, 1}}}}
+	// quick: the branch+merge history (it has the side branch); thorough: also two roots and linear
+	dags := []fw.DAG{{Parents: [][]int{{}, {0}, {0}, {1, 2}}}}
+	if c.Thorough() {
+		dags = append(dags, fw.DAG{Parents: [][]int{{}, {}, {0, 1}}}, fw.DAG{Parents: [][]int{{}, {0}}})
+	}
+	c.Bound("histories", len(dags))
 	type state struct {
 		name string
 		dir  string
@@ -154,6 +266,7 @@ func runC22(c *fw.Ctx) {
 		dir     string
 		objs    map[string]fw.ObjInfo // reachable before
 		staged  []string
+		wtOnly  map[string]bool // reachable only from a linked worktree's HEAD or index
 	}
 	var tmpls []*tmpl
 	for di := range dags {
@@ -161,17 +274,32 @@ func runC22(c *fw.Ctx) {
 			tmpls = append(tmpls, &tmpl{name: fmt.Sprintf("dag%d+%v", di, featNames(feats, ss))})
 		}
 	}
-	c.ParDo(len(tmpls), 0, func(i int) {
-		t := tmpls[i]
-		di := i / len(subsets)
-		ss := subsets[i%len(subsets)]
-		g, dir := c.InitRepo("c22t", "", false)
+	// one git-built base repository per history; every template starts as a copy of it
+	type baseRepo struct {
+		dir string
+		ids []string
+	}
+	bases := make([]baseRepo, len(dags))
+	c.ParDo(len(dags), 0, func(di int) {
+		g, dir := c.InitRepo("c22b", "", false)
 		ids := g.BuildHistory(fw.HistoryFromDAG(dags[di], nil, 1700000000, 100), false)
 		g.MustRun("update-ref", "refs/heads/main", ids[len(ids)-1])
 		if len(ids) > 2 {
 			g.MustRun("update-ref", "refs/heads/side", ids[1])
 		}
 		g.MustRun("reset", "-q", "--hard")
+		bases[di] = baseRepo{dir, ids}
+	})
+	if c.Expired() {
+		return
+	}
+	c.ParDo(len(tmpls), 0, func(i int) {
+		t := tmpls[i]
+		di := i / len(subsets)
+		ss := subsets[i%len(subsets)]
+		dir := filepath.Join(c.TempDir("c22t"), "r")
+		c22CopyTree(bases[di].dir, dir)
+		g, ids := c.GitHome().In(dir), bases[di].ids
 		for _, k := range ss {
 			feats[k].apply(g, dir, ids)
 		}
@@ -195,6 +323,34 @@ func runC22(c *fw.Ctx) {
 				t.staged = append(t.staged, f[1])
 			}
 		}
+		// what only another worktree's HEAD or index keeps alive (rev-list --all and
+		// --indexed-objects cover every worktree; the two passes above do not when the
+		// refs are named explicitly)
+		t.wtOnly = map[string]bool{}
+		if _, err := os.Stat(filepath.Join(dir, ".git", "worktrees")); err == nil {
+			own := map[string]bool{}
+			for _, l := range strings.Split(g.MustRun("rev-list", "--objects", "--glob=refs/*", "HEAD").S(), "\n") {
+				if f := strings.Fields(l); len(f) > 0 {
+					own[f[0]] = true
+				}
+			}
+			for _, s := range t.staged {
+				own[s] = true
+			}
+			for _, l := range strings.Split(g.MustRun("rev-list", "--objects", "--all", "--indexed-objects", "HEAD").S(), "\n") {
+				f := strings.Fields(l)
+				if len(f) == 0 {
+					continue
+				}
+				if !own[f[0]] {
+					t.wtOnly[f[0]] = true
+				}
+				if !seen[f[0]] {
+					seen[f[0]] = true
+					oids = append(oids, f[0])
+				}
+			}
+		}
 		t.objs = map[string]fw.ObjInfo{}
 		for _, o := range g.CatFileBatch(oids) {
 			if o.Missing {
@@ -215,10 +371,11 @@ func runC22(c *fw.Ctx) {
 		}
 	}
 	c.Bound("cases", len(jobs))
+	var refused atomic.Int64
 	c.ParDo(len(jobs), 0, func(i int) {
 		j := jobs[i]
 		dir := filepath.Join(c.TempDir("c22c"), "r")
-		copyDir(j.t.dir, dir)
+		c22CopyTree(j.t.dir, dir)
 		defer os.RemoveAll(filepath.Dir(dir))
 		repo, err := git.PlainOpen(dir)
 		if err != nil {
@@ -291,7 +448,9 @@ func runC22(c *fw.Ctx) {
 			}
 			if !ok {
 				lost = append(lost, id)
-				if stagedSet[id] {
+				if j.t.wtOnly[id] {
+					kinds["object reachable only from a linked worktree's HEAD or index"] = true
+				} else if stagedSet[id] {
 					kinds["object referenced only by the index"] = true
 				} else {
 					kinds["object reachable from refs/HEAD"] = true
@@ -330,6 +489,7 @@ func runC22(c *fw.Ctx) {
 			return
 		}
 		if operr != nil {
+			refused.Add(1)
 			return // the operation refused: nothing was lost, which is all the statement demands
 		}
 		fs := g.Run("fsck", "--no-dangling", "--connectivity-only")
@@ -341,6 +501,7 @@ func runC22(c *fw.Ctx) {
 		}
 	})
 	c.TracesValidated(len(tmpls))
+	c.Extra("refused_operations", int(refused.Load()))
 }
 
 func c22Seq(n string) string {
